@@ -243,6 +243,7 @@ func refsOf(e *engine, id wasm.ModuleID) int       { return e.compiledRefs[id] }
 //@ prop C07
 //@ func (c *compiler) emit(op unionOperation)
 //@   ensures[appended-unless-unreachable] !old(c.unreachableState.on) && !old(op.Kind == operationKindDrop && int64(op.U1) == -1) ==> len(c.result.Operations) == old(len(c.result.Operations))+1 && c.result.Operations[len(c.result.Operations)-1].Kind == old(op.Kind) && c.result.Operations[len(c.result.Operations)-1].B1 == old(op.B1) && c.result.Operations[len(c.result.Operations)-1].B2 == old(op.B2) && c.result.Operations[len(c.result.Operations)-1].B3 == old(op.B3) && c.result.Operations[len(c.result.Operations)-1].U1 == old(op.U1) && c.result.Operations[len(c.result.Operations)-1].U2 == old(op.U2) && c.result.Operations[len(c.result.Operations)-1].U3 == old(op.U3)
+//@   ensures[nothing-in-dead-code] old(c.unreachableState.on) ==> len(c.result.Operations) == old(len(c.result.Operations))
 //@   ensures[earlier-operations-kept] len(c.result.Operations) >= old(len(c.result.Operations)) && forall i int :: 0 <= i && i < old(len(c.result.Operations)) ==> c.result.Operations[i].Kind == old[operationKind](c.result.Operations[i].Kind)
 //@   modifies c.result.Operations, c.result.IROperationSourceOffsetsInWasmBinary, elems(c.result.Operations), elems(c.result.IROperationSourceOffsetsInWasmBinary)
 
@@ -257,7 +258,17 @@ func indexCoupled(op wasm.Opcode) bool {
 //@ func (c *compiler) applyToStack(opcode wasm.Opcode) (index uint32, err error)
 //@   trusted
 //@   ensures !indexCoupled(opcode) ==> c.pc == old(c.pc)
+//@   ensures[dead-code-no-index] old(c.unreachableState.on) && !indexCoupled(opcode) ==> err == nil
+//@   ensures[dead-code-index] old(c.unreachableState.on) && indexCoupled(opcode) && old(c.pc)+1 < uint64(len(c.body)) && c.body[old(c.pc)+1] < 0x80 ==> err == nil && c.pc == old(c.pc)+1
 //@   modifies c.stack, c.stackLenInUint64, c.pc, elems(c.stack)
+// (the dead-code clause of the assumed contract above is proved here, where applyToStack returns early)
+//@ case dead-code (c *compiler) applyToStack(opcode wasm.Opcode) (index uint32, err error)
+//@   requires c.unreachableState.on && c.pc < 1<<40
+//@   ensures[pc-unchanged-without-index] !indexCoupled(opcode) ==> c.pc == old(c.pc) && err == nil
+//@   ensures[dead-code-index] indexCoupled(opcode) && old(c.pc)+1 < uint64(len(c.body)) && c.body[old(c.pc)+1] < 0x80 ==> err == nil && c.pc == old(c.pc)+1
+//@   modifies c.pc
+//@   nosafety keep-pre
+
 //@ func (c *compiler) getFrameDropRange(frame *controlFrame, isEnd bool) inclusiveRange
 //@   trusted
 //@   modifies nothing
